@@ -565,7 +565,7 @@ def _strip(events):
 
 # ------------------------------------------------------------------ R4
 def check_forward(r, repo: Repo, caller: str, callee_text: str, callee_def: str, want: dict[str, str],
-                  min_sites: int = 1, skip_self: bool = True) -> None:
+                  min_sites: int = 1, skip_self: bool = True, blank_tolerant: tuple = ()) -> None:
     fn = repo.func(caller)
     cdef = repo.func(callee_def)
     calls = find_calls(fn, lambda c, f: f == callee_text or f.endswith("." + callee_text))
@@ -581,6 +581,9 @@ def check_forward(r, repo: Repo, caller: str, callee_text: str, callee_def: str,
             from ..rules import deep_text
             try:
                 same = a is not None and expected != "<default>" and deep_text(fn, a) == deep_text(fn, expected)
+                if not same and p in blank_tolerant and a is not None:
+                    from ..rules import resolve_deep, unstrip
+                    same = ast.unparse(unstrip(resolve_deep(fn, a))) == ast.unparse(unstrip(resolve_deep(fn, expected)))
             except SyntaxError:
                 same = False
             if got != expected and raw != expected and not same:
